@@ -24,11 +24,17 @@ def canon(line):
     # the room it was leaving (a session kicked by the same request closes in its own goroutine) is a race
     # the statement does not care about -- its view starts afresh with the reply
     switched = set(t.split("=", 1)[0] for t in rest if "=" in t and t[0] == "c" and t.split("=", 1)[1].startswith("room("))
+    # a connection that is closed by this step (two sessions of one user disinvited by the same request close in
+    # their own goroutines): whether it was still written the other one's leave before it went away is a race,
+    # and its view ends with the step
+    dig = [t for t in rest if t.startswith("T=")]
+    still_open = set(e[3:] for t in dig for e in t[2:].split(";") if e.startswith("co:"))
+    closed = set(c for c in leaves if dig and c not in still_open)
     for c in set(joins) | set(leaves):
         j, l = joins.get(c, set()), leaves.get(c, set())
         if j - l:
             rest.append("%s=join[%s]" % (c, ",".join(sorted(j - l))))
-        if l - j and c not in switched:
+        if l - j and c not in switched and c not in closed:
             rest.append("%s=leave[%s]" % (c, ",".join(sorted(l - j))))
     digest = [t for t in rest if t.startswith("T=")]
     return " ".join(sorted(t for t in rest if not t.startswith("T=")) + digest)
